@@ -61,6 +61,13 @@ def cases(tier, seed):
                 out.append({"kind": "herm", "cls": f"herm:{sign}", "ratio": ratio, "sign": sign, "idx": idx, "seed": seed,
                             "maxn": maxn, "nseeds": nseeds})
                 idx += 1
+    # size ladder (n above 8 / 16 / 32), gap ratio at the edge of the domain: many iterations are needed
+    for n_ in ([12, 17, 24, 33] if tier == "quick" else [9, 12, 16, 17, 20, 24, 32, 33, 40, 48]):
+        for sign in ("pos", "neg", "neg_same", "pos_mixed"):
+            for ratio in (0.8, 0.3):
+                out.append({"kind": "herm", "cls": f"herm:{sign}", "ratio": ratio, "sign": sign, "idx": idx, "seed": seed,
+                            "maxn": maxn, "nseeds": 2 if tier == "quick" else 6, "n": n_})
+                idx += 1
     for cls in ("generic", "zero", "nilpotent", "lower_nilpotent", "zero_first_row", "zero_last_column", "rank1", "unitary", "upper_tri", "scaled"):
         for k in range(8 if tier == "quick" else 60):
             out.append({"kind": "bounded", "cls": "bounded:" + cls, "c": cls, "idx": idx, "seed": seed, "maxn": maxn, "nseeds": nseeds})
@@ -114,6 +121,9 @@ def _herm(spec, ctx, R):
     U = R.utils
     rng = gen.rng_for(spec["seed"], "c19herm", spec["idx"])
     n = 1 + spec["idx"] % spec["maxn"] if spec["idx"] % 3 else int(rng.integers(2, spec["maxn"] + 1))
+    if "n" in spec:
+        n = spec["n"]
+        ctx.hit("size:ladder")
     r, sign = spec["ratio"], spec["sign"]
     decoupled = sign.startswith("decoupled_first")
     if decoupled and n == 1:
